@@ -542,6 +542,10 @@ class C14(FaultMonitorMixin, BaseMonitor):
                                 f"{op['op']} with {op['fault']} value {str(op.get('value', op.get('bad')))[:80]} "
                                 f"was accepted", i, op_kind(op))
             self.res.count("weak_fault_accepted")
+            if self.mode == "enumeration":
+                # the statement does not require this value to be refused: go on with the catalogue on a rebuilt world
+                sim.world = S.build_world(sim.spec, sim.salt)
+                return "accepted"
             self.stop = "weak_fault_accepted"
             return "accepted"
         self.res.count("refused:" + type(ret).__name__)
@@ -551,6 +555,9 @@ class C14(FaultMonitorMixin, BaseMonitor):
         if in_recomputation and not op["strong"]:
             # accepted by validation, failed while recomputing: that is C15's subject, not a refusal
             self.res.count("weak_fault_failed_in_recomputation")
+            if self.mode == "enumeration":
+                sim.world = S.build_world(sim.spec, sim.salt)
+                return "raised"
             self.stop = "weak_fault_failed_in_recomputation"
             return "raised"
         after, pins2 = identity.snapshot(sim.world)
